@@ -49,8 +49,8 @@ CHECKS = {
             "TLC decides, per observation, whether a cover with fewer routes exists, whether kPathCover(k) should be "
             "feasible, and both inequalities of width = min cover."),
     "C10": ("model_checking", "6/C10",
-            "ConstraintsHonoured by trace validation; Peel / Cover / Fit adversaries take constraints, ignore sets and starts/ends "
-            "natively; equivalences by Trace_Groups",
+            "ConstraintsHonoured by trace validation (edge-, node- and length-coverage rules of Problems.tla); Peel / Cover / Fit "
+            "adversaries take constraints, ignore sets and starts/ends natively; equivalences by Trace_Groups",
             "The optimum over exactly the admissible solutions is decided by the adversaries on the instance with the feature; "
             "scale 0 == ignored and [] == omitted as equivalence-of-runs traces."),
     "C11": ("model_checking", "6/C11",
@@ -59,7 +59,8 @@ CHECKS = {
             "Equal solved status / objective for all 12 classes and features, results in original node names, the expansion "
             "class equals Graphs!Expand, round trips."),
     "C12": ("model_checking", "6/C12",
-            "Wrapper.tla state machine (MC + TLC -simulate histories replayed on the real wrapper, Trace_Wrapper.tla); Gadgets.tla "
+            "Wrapper.tla state machine (MC + TLC -simulate histories and the directed batches of Gen_WrapperBatch.tla replayed on the "
+            "real wrapper, Trace_Wrapper.tla); Gadgets.tla "
             "(MC on the grid) + emitted rows / probes (Trace_Gadget.tla)",
             "Design-level exactness of the three gadgets for ub<=12; emitted rows of the real helpers enumerated exactly for "
             "small bounds and probed through HiGHS for larger; call histories validated state by state."),
@@ -91,7 +92,7 @@ CHECKS = {
             "order incl. repetitions (warm caches) on bounded-exhaustive graph universes."),
     "C18": ("model_checking", "6/C18",
             "Purity.tla -> TLC -simulate aliasing histories; pooled caller objects dumped after every call; Trace_Purity.tla",
-            "Pool unchanged, results equal to the same construction in a fresh isolated history, repeated getters / solve() "
+            "Pool unchanged, results equal to the same construction in a fresh process, repeated getters / solve() "
             "agree, over generated histories sharing graphs, option dicts, solver options, constraint and ignore lists and "
             "the mutable defaults."),
     "C19": ("model_checking", "6/C19",
@@ -107,7 +108,7 @@ CHECKS = {
 
 NOT_YET = {}
 
-LEVEL_NOTE = ("Trusted base: TLC 1.8 + CommunityModules (Json, IOUtils); HiGHS as used inside the library; the ~dumb "
+LEVEL_NOTE = ("Trusted base: TLC 1.8 + CommunityModules (Json, IOUtils); HiGHS is part of the system under test (its answers are judged by TLC like any other result); the ~dumb "
               "Python harness only builds inputs and serialises outputs. Bounded: instance universes of DESIGN Appendix A.")
 
 
